@@ -1,4 +1,5 @@
 import WfProofs.LifecycleSafe
+import WfModel.GenLifecycleShape
 import WfProofs.LifecycleRow
 import WfProps.C03
 /-!
@@ -31,22 +32,22 @@ open Lifecycle
 clear) **before** it delivers; the idle announcement writes `idle_since` first and spawns the
 deferred release last, outside the lock; `run_workflow` adds the run to the active set. -/
 theorem C26_source_shape :
-    GenLifecycle.shape_ir_send =
+    GenLifecycleShape.shape_ir_send =
       ["with(self._runtime._reload_lock)", "if(NotIn;_active_run_ids,_runtime,run_id)",
        "await(self._runtime._ensure_active_run_locked)", "else",
        "await(self._runtime._store.update_handler_status;idle_since=None)", "endif",
        "await(self._decorated.send_event)", "endwith"] ∧
-    GenLifecycle.shape_ir_reload =
+    GenLifecycleShape.shape_ir_reload =
       ["if(In;_active_run_ids)", "return", "endif", "await(self._store.query)", "if(NotEq;)", "raise", "endif",
        "call(self._persistence.get_tracked_workflow)", "if(Is;None)", "raise", "endif",
        "await(self._persistence.context_from_ticks)", "call(_.run)", "call(self._active_run_ids.add)",
        "await(self._store.update_handler_status;idle_since=None)"] ∧
-    GenLifecycle.shape_ir_write =
+    GenLifecycleShape.shape_ir_write =
       ["if(;WorkflowIdleEvent)", "call(datetime.now)",
        "await(self._store.update_handler_status;status='running',idle_since=*)", "endif", "call(super)",
        "await(super().write_to_event_stream)", "if(;WorkflowIdleEvent)", "call(self._runtime._deferred_release)",
        "call(self._runtime._spawn_task)", "endif"] ∧
-    GenLifecycle.shape_ir_run_workflow =
+    GenLifecycleShape.shape_ir_run_workflow =
       ["call(self._active_run_ids.add)", "call(super().run_workflow)", "call(super)", "return"] := by decide
 
 /-! ## (A) in-process -/
@@ -177,40 +178,40 @@ theorem C26_idleSound_is_C03 (r : Engine.Runner) : C03.TrulyIdle r = (C26.absLoo
 theorem C26_lifecycle_constants :
     GenLifecycle.stateNames = ["active", "releasing", "released"] ∧
     GenLifecycle.stateValues = ["active", "releasing", "released"] ∧
-    GenLifecycle.tableName = "run_lifecycle" ∧
+    GenLifecycleShape.tableName = "run_lifecycle" ∧
     -- SQLite
-    GenLifecycle.sqlite_begin_sql = "UPDATE T SET state = ?, updated_at = ? WHERE run_id = ? AND state = ?" ∧
-    (GenLifecycle.sqlite_begin_from, GenLifecycle.sqlite_begin_to) = ("active", "releasing") ∧
-    GenLifecycle.sqlite_complete_sql = "UPDATE T SET state = ?, updated_at = ? WHERE run_id = ? AND state = ?" ∧
-    (GenLifecycle.sqlite_complete_from, GenLifecycle.sqlite_complete_to) = ("releasing", "released") ∧
-    (GenLifecycle.sqlite_create_from, GenLifecycle.sqlite_create_to) = ("none", "active") ∧
-    GenLifecycle.sqlite_resume_select = "SELECT state, updated_at FROM T WHERE run_id = ?" ∧
-    GenLifecycle.sqlite_resume_update = "UPDATE T SET state = ?, updated_at = ? WHERE run_id = ?" ∧
-    (GenLifecycle.sqlite_resume_to, GenLifecycle.sqlite_resume_pred, GenLifecycle.sqlite_resume_cmp) = ("active", "none", "Gt") ∧
-    (GenLifecycle.sqlite_resume_noRowNone, GenLifecycle.sqlite_resume_passIfActive, GenLifecycle.sqlite_resume_takeIfReleased) = (true, true, true) ∧
-    (GenLifecycle.sqlite_resume_returnsWin, GenLifecycle.sqlite_resume_returnsBusy) = ("released", "releasing") ∧
-    GenLifecycle.sqlite_shape_begin.head? = some "with(self._lock)" ∧ GenLifecycle.sqlite_shape_resume.head? = some "with(self._lock)" ∧
+    GenLifecycleShape.sqlite_begin_sql = "UPDATE T SET state = ?, updated_at = ? WHERE run_id = ? AND state = ?" ∧
+    (GenLifecycleShape.sqlite_begin_from, GenLifecycleShape.sqlite_begin_to) = ("active", "releasing") ∧
+    GenLifecycleShape.sqlite_complete_sql = "UPDATE T SET state = ?, updated_at = ? WHERE run_id = ? AND state = ?" ∧
+    (GenLifecycleShape.sqlite_complete_from, GenLifecycleShape.sqlite_complete_to) = ("releasing", "released") ∧
+    (GenLifecycleShape.sqlite_create_from, GenLifecycleShape.sqlite_create_to) = ("none", "active") ∧
+    GenLifecycleShape.sqlite_resume_select = "SELECT state, updated_at FROM T WHERE run_id = ?" ∧
+    GenLifecycleShape.sqlite_resume_update = "UPDATE T SET state = ?, updated_at = ? WHERE run_id = ?" ∧
+    (GenLifecycleShape.sqlite_resume_to, GenLifecycleShape.sqlite_resume_pred, GenLifecycleShape.sqlite_resume_cmp) = ("active", "none", "Gt") ∧
+    (GenLifecycleShape.sqlite_resume_noRowNone, GenLifecycleShape.sqlite_resume_passIfActive, GenLifecycleShape.sqlite_resume_takeIfReleased) = (true, true, true) ∧
+    (GenLifecycleShape.sqlite_resume_returnsWin, GenLifecycleShape.sqlite_resume_returnsBusy) = ("released", "releasing") ∧
+    GenLifecycleShape.sqlite_shape_begin.head? = some "with(self._lock)" ∧ GenLifecycleShape.sqlite_shape_resume.head? = some "with(self._lock)" ∧
     -- PostgreSQL: the same transitions; the resume is SELECT … FOR UPDATE + UPDATE inside one transaction
-    GenLifecycle.pg_begin_sql = "UPDATE T SET state = $1, updated_at = $2 WHERE run_id = $3 AND state = $4 RETURNING run_id" ∧
-    (GenLifecycle.pg_begin_from, GenLifecycle.pg_begin_to) = ("active", "releasing") ∧
-    (GenLifecycle.pg_complete_from, GenLifecycle.pg_complete_to) = ("releasing", "released") ∧
-    (GenLifecycle.pg_create_from, GenLifecycle.pg_create_to) = ("none", "active") ∧
-    GenLifecycle.pg_resume_forUpdate = true ∧
-    (GenLifecycle.pg_resume_to, GenLifecycle.pg_resume_pred, GenLifecycle.pg_resume_cmp) = ("active", "none", "Gt") ∧
-    (GenLifecycle.pg_resume_noRowNone, GenLifecycle.pg_resume_passIfActive, GenLifecycle.pg_resume_takeIfReleased) = (true, true, true) ∧
-    (GenLifecycle.pg_resume_returnsWin, GenLifecycle.pg_resume_returnsBusy) = ("released", "releasing") ∧
-    GenLifecycle.pg_shape_resume.take 3 = ["with(self._pool.acquire)", "with(_.transaction)", "await(_.fetchrow)"] ∧
+    GenLifecycleShape.pg_begin_sql = "UPDATE T SET state = $1, updated_at = $2 WHERE run_id = $3 AND state = $4 RETURNING run_id" ∧
+    (GenLifecycleShape.pg_begin_from, GenLifecycleShape.pg_begin_to) = ("active", "releasing") ∧
+    (GenLifecycleShape.pg_complete_from, GenLifecycleShape.pg_complete_to) = ("releasing", "released") ∧
+    (GenLifecycleShape.pg_create_from, GenLifecycleShape.pg_create_to) = ("none", "active") ∧
+    GenLifecycleShape.pg_resume_forUpdate = true ∧
+    (GenLifecycleShape.pg_resume_to, GenLifecycleShape.pg_resume_pred, GenLifecycleShape.pg_resume_cmp) = ("active", "none", "Gt") ∧
+    (GenLifecycleShape.pg_resume_noRowNone, GenLifecycleShape.pg_resume_passIfActive, GenLifecycleShape.pg_resume_takeIfReleased) = (true, true, true) ∧
+    (GenLifecycleShape.pg_resume_returnsWin, GenLifecycleShape.pg_resume_returnsBusy) = ("released", "releasing") ∧
+    GenLifecycleShape.pg_shape_resume.take 3 = ["with(self._pool.acquire)", "with(_.transaction)", "await(_.fetchrow)"] ∧
     -- the decorator
-    GenLifecycle.crashTimeoutMs = 120000 ∧ GenLifecycle.pollMs = 500 ∧
-    GenLifecycle.shape_dbos_send =
+    GenLifecycle.crashTimeoutMs = 120000 ∧ GenLifecycleShape.pollMs = 500 ∧
+    GenLifecycleShape.shape_dbos_send =
       ["await(self._runtime._get_lifecycle)", "loop", "await(_.try_begin_resume;crash_timeout_seconds=CRASH_TIMEOUT_SECONDS)",
        "if(Is;None)", "await(self._decorated.send_event)", "return", "endif", "if(Eq;released)",
        "await(self._runtime._do_resume;pending_tick=*)", "return", "endif", "await(asyncio.sleep)", "endloop"] ∧
-    GenLifecycle.shape_dbos_release =
+    GenLifecycleShape.shape_dbos_release =
       ["await(self._get_lifecycle)", "await(_.begin_release)", "if(Not;begin_release,_.begin_release)", "return", "endif",
        "call(self._decorated.get_external_adapter)", "await(_.send_event)", "call(self._await_and_mark_released)",
        "call(self._spawn_task)"] ∧
-    GenLifecycle.shape_dbos_mark_released =
+    GenLifecycleShape.shape_dbos_mark_released =
       ["try", "await(_.get_result)", "await(self._get_lifecycle)", "await(_.complete_release)", "call(datetime.now)",
        "await(self._store.update_handler_status;status='running',idle_since=*)", "except", "endtry"] := by decide
 
